@@ -6,7 +6,7 @@
 //! Where a format document exists (PSF2 header, XBin / ADF / IDF layout, the CTerm font DCS) the bytes the engine
 //! wrote are also compared with what the document prescribes (`<enc>.write|..` keys), so that a writer defect and
 //! a reader defect that cancel each other do not pass.
-use icy_engine::{AttributedChar, BitFont, Buffer, IceMode, SaveOptions, TextAttribute, SAUCE_FONT_NAMES};
+use icy_engine::{AttributedChar, BitFont, Buffer, IceMode, SauceData, SaveOptions, TextAttribute, TextPane, FONT_NAMES, SAUCE_FONT_NAMES};
 use icyv::proptest::collection::vec;
 use icyv::proptest::prelude::*;
 use icyv::util::{pick, Bytes};
@@ -14,7 +14,7 @@ use icyv::Verdict;
 use serde::{Deserialize, Serialize};
 use std::path::Path;
 
-pub const ENCS: &[&str] = &["psf2", "raw", "dcs", "xb", "xb2", "adf", "idf", "icy"];
+pub const ENCS: &[&str] = &["psf2", "raw", "dcs", "xb", "xb2", "adf", "idf", "icy", "ans"];
 pub const PAGES: usize = 43; // font pages 0..=42
 
 // ------------------------------------------------------------------------------------------------ model
@@ -251,11 +251,18 @@ pub enum Pre {
     Text,
 }
 
+#[derive(Clone, Copy)]
 pub struct Env<'a> {
     pub slot: usize,
     pub compress: bool,
     /// documents: the font slots already hold another font when the font under test is set
     pub stale: bool,
+    /// documents: SaveOptions::save_sauce (and a SAUCE record on the document)
+    pub save_sauce: bool,
+    /// documents: the font page the cells are on = the slot of the font under test (ANSI files: 100 + page)
+    pub page: usize,
+    /// documents with page != 0: what slot 0 holds instead (0 default font, 1 an 8x8 font, 2 same size, other glyphs)
+    pub slot0: u8,
     pub pre: &'a [Pre],
 }
 
@@ -354,11 +361,11 @@ fn enc_dcs(font: &BitFont, want: &Ref, env: &Env) -> EncResult {
     Ok((if reloads > 0 { "+reload" } else if total > 0 { "+session" } else { "" }, true))
 }
 
-fn opts(compress: bool) -> SaveOptions {
+fn opts(env: &Env) -> SaveOptions {
     let mut o = SaveOptions::new();
     o.lossles_output = true;
-    o.compress = compress;
-    o.save_sauce = false;
+    o.compress = env.compress;
+    o.save_sauce = env.save_sauce;
     o
 }
 
@@ -368,11 +375,14 @@ fn cell(ch: char, page: usize) -> AttributedChar {
     AttributedChar::new(ch, a)
 }
 
-fn doc(w: i32, fonts: &[(usize, &BitFont)], pages: &[usize], stale: bool) -> Buffer {
+/// A one-row document whose cells are on the given font pages. The font under test sits in `fonts[0].0` (any slot);
+/// when no document font uses slot 0, slot 0 holds some OTHER font (the default font, an 8x8 font or a font of the
+/// same size with other glyphs): which font a picture is shown in is decided by the cells, not by slot 0.
+fn doc(w: i32, fonts: &[(usize, &BitFont)], pages: &[usize], env: &Env, h: i32) -> Buffer {
     let mut buf = Buffer::new((w, 1));
     buf.is_terminal_buffer = false;
     buf.ice_mode = IceMode::Ice;
-    if stale {
+    if env.stale {
         // the document already has (other) fonts in these slots: set_font must replace them
         let old = BitFont::create_8("stale font", 8, 8, &[0xAA; 2048]);
         for (slot, _) in fonts {
@@ -381,6 +391,14 @@ fn doc(w: i32, fonts: &[(usize, &BitFont)], pages: &[usize], stale: bool) -> Buf
     } else {
         buf.clear_font_table();
     }
+    if !fonts.iter().any(|(s, _)| *s == 0) {
+        let other = match env.slot0 % 3 {
+            0 => BitFont::default(),
+            1 => BitFont::create_8("other font", 8, 8, &[0x55; 2048]),
+            _ => BitFont::create_8("other font", 8, h.clamp(1, 32) as u8, &vec![0x33; 256 * h.clamp(1, 32) as usize]),
+        };
+        buf.set_font(0, other);
+    }
     for (slot, f) in fonts {
         buf.set_font(*slot, (*f).clone());
     }
@@ -388,7 +406,17 @@ fn doc(w: i32, fonts: &[(usize, &BitFont)], pages: &[usize], stale: bool) -> Buf
         let page = pages[(x as usize).min(pages.len() - 1)];
         buf.layers[0].set_char((x, 0), cell(if x == 0 { 'A' } else { 'B' }, page));
     }
+    if env.save_sauce {
+        // (IcyDraw stores a SAUCE record when the document has one; the other formats follow SaveOptions::save_sauce)
+        buf.set_sauce(Some(SauceData::default()), false);
+    }
     buf
+}
+
+/// the font the loaded picture shows cell x in (through the cell's font page: slot numbers are the format's business)
+fn shown<'a>(tag: &str, back: &'a Buffer, x: i32) -> Result<&'a BitFont, Verdict> {
+    let page = back.get_char((x, 0)).get_font_page();
+    back.get_font(page).ok_or_else(|| Verdict::fail(format!("{tag}|missing"), format!("cell {x} of the loaded document is on font page {page}, which has no font")))
 }
 
 fn is_engine_default(want: &Ref) -> bool {
@@ -396,18 +424,28 @@ fn is_engine_default(want: &Ref) -> bool {
     want.w == d.size.width && want.h == d.size.height && want.len == d.length && d.convert_to_u8_data() == want.data
 }
 
+/// strip an appended SAUCE record (EOF char + 128 bytes, no comments are written here)
+fn without_sauce(bytes: &[u8]) -> &[u8] {
+    let n = bytes.len();
+    if n >= 129 && &bytes[n - 128..n - 123] == b"SAUCE" && bytes[n - 129] == 0x1A {
+        &bytes[..n - 129]
+    } else {
+        bytes
+    }
+}
+
 /// XBin (doc/FileFormats/x_bin.htm): 11 byte header (id, eof, width, height, fontsize, flags), palette (48) if
 /// flag bit 0, font (fontsize*256, twice in 512-character mode = flag bit 4) if flag bit 1.
 fn enc_xb(font: &BitFont, want: &Ref, second: Option<(&BitFont, &Ref)>, env: &Env) -> EncResult {
-    let compress = env.compress;
     let representable = want.is_8x256() && want.h <= 32;
+    let (p1, p2) = (env.page, env.page + 1);
     let buf = match second {
-        None => doc(2, &[(0, font)], &[0], env.stale),
-        Some((f2, _)) => doc(2, &[(0, font), (1, f2)], &[0, 1], env.stale),
+        None => doc(2, &[(p1, font)], &[p1], env, want.h),
+        Some((f2, _)) => doc(2, &[(p1, font), (p2, f2)], &[p1, p2], env, want.h),
     };
-    let bytes = match buf.to_bytes("xb", &opts(compress)) {
+    let bytes = match buf.to_bytes("xb", &opts(env)) {
         Ok(b) => b,
-        Err(e) if representable => return Err(Verdict::fail(format!("xb|save_error|{}", strip_digits(&e.to_string())), format!("saving a document with an 8x{} font as XBin failed: {e}", want.h))),
+        Err(e) if representable => return Err(Verdict::fail(format!("xb|save_error|{}", strip_digits(&e.to_string())), format!("saving a document shown in an 8x{} font (font page {p1}) as XBin failed: {e}", want.h))),
         Err(_) => return Ok(("+rejected", false)),
     };
     let back = match Buffer::from_bytes(Path::new("x.xb"), false, &bytes) {
@@ -416,7 +454,7 @@ fn enc_xb(font: &BitFont, want: &Ref, second: Option<(&BitFont, &Ref)>, env: &En
     };
     if !representable {
         // the engine accepted a font XBin cannot hold: then it must still come back unchanged
-        let ok = back.get_font(0).map(|f| compare("xb", f, want).is_ok()).unwrap_or(false);
+        let ok = shown("xb", &back, 0).map(|f| compare("xb", f, want).is_ok()).unwrap_or(false);
         return if ok { Ok(("+accepted_unrepresentable", true)) } else { Err(Verdict::fail("xb|unrepresentable_font_accepted", format!("a {}x{} font with {} glyphs was saved as XBin without error and does not come back", want.w, want.h, want.len))) };
     }
     // writer against the document
@@ -426,7 +464,7 @@ fn enc_xb(font: &BitFont, want: &Ref, second: Option<(&BitFont, &Ref)>, env: &En
     let flags = bytes[10];
     let fsize = if bytes[9] == 0 { 16 } else { bytes[9] as i32 };
     if fsize != want.h {
-        return Err(Verdict::fail("xb.write|fontsize", format!("header font size {} for a font of height {}", bytes[9], want.h)));
+        return Err(Verdict::fail("xb.write|fontsize", format!("header font size {} for a picture shown in a font of height {} (font page {p1})", bytes[9], want.h)));
     }
     if (flags & 0x10 != 0) != second.is_some() {
         return Err(Verdict::fail("xb.write|flag512", format!("512-character flag is {} for a document with {} font(s)", flags & 0x10 != 0, 1 + second.is_some() as u8)));
@@ -439,7 +477,7 @@ fn enc_xb(font: &BitFont, want: &Ref, second: Option<(&BitFont, &Ref)>, env: &En
         let mut o = 11 + if flags & 1 != 0 { 48 } else { 0 };
         let n = want.data.len();
         if bytes.len() < o + n || bytes[o..o + n] != want.data[..] {
-            return Err(Verdict::fail("xb.write|font1_bytes", format!("the {n} font bytes at offset {o} of the saved XBin differ from the glyph bytes")));
+            return Err(Verdict::fail("xb.write|font1_bytes", format!("the {n} font bytes at offset {o} of the saved XBin differ from the glyph bytes of the font the cells use (page {p1})")));
         }
         o += n;
         if let Some((_, w2)) = second {
@@ -448,29 +486,24 @@ fn enc_xb(font: &BitFont, want: &Ref, second: Option<(&BitFont, &Ref)>, env: &En
             }
         }
     }
-    // reader
-    let Some(f1) = back.get_font(0) else {
-        return Err(Verdict::fail("xb.font1|missing", "loaded XBin has no font in slot 0"));
-    };
-    compare("xb.font1", f1, want)?;
+    // reader: the fonts the two cells are shown in
+    compare("xb.font1", shown("xb.font1", &back, 0)?, want)?;
     if let Some((_, w2)) = second {
-        let Some(f2) = back.get_font(1) else {
-            return Err(Verdict::fail("xb.font2|missing", "loaded 512-character XBin has no font in slot 1"));
-        };
-        compare("xb.font2", f2, w2)?;
+        compare("xb.font2", shown("xb.font2", &back, 1)?, w2)?;
     }
-    Ok((if compress { "+compressed" } else { "" }, true))
+    Ok(("", true))
 }
 
 /// ADF (doc/FileFormats/Adf): version byte, 192 palette bytes, 4096 font bytes, screen data.
 /// IDF (doc/FileFormats/IceDraw): header, screen data, 4096 font bytes, 48 palette bytes.
-fn enc_adf_idf(ext: &'static str, font: &BitFont, want: &Ref, env: &Env) -> EncResult {
-    let compress = env.compress;
+fn adf_idf_inner(ext: &'static str, font: &BitFont, want: &Ref, env: &Env) -> EncResult {
     let representable = want.is_8x256() && want.h == 16;
-    let buf = doc(80, &[(0, font)], &[0], env.stale);
-    let bytes = match buf.to_bytes(ext, &opts(compress)) {
+    let buf = doc(80, &[(env.page, font)], &[env.page], env, want.h);
+    let bytes = match buf.to_bytes(ext, &opts(env)) {
         Ok(b) => b,
-        Err(e) if representable => return Err(Verdict::fail(format!("{ext}|save_error|{}", strip_digits(&e.to_string())), format!("saving a document with an 8x16 font as .{ext} failed: {e}"))),
+        Err(e) if representable => {
+            return Err(Verdict::fail(format!("{ext}|save_error|{}", strip_digits(&e.to_string())), format!("saving a document shown in an 8x16 font (font page {}) as .{ext} failed: {e}", env.page)))
+        }
         Err(_) => return Ok(("+rejected", false)),
     };
     let name = format!("x.{ext}");
@@ -479,31 +512,50 @@ fn enc_adf_idf(ext: &'static str, font: &BitFont, want: &Ref, env: &Env) -> EncR
         Err(e) => return Err(Verdict::fail(format!("{ext}|load_error|{}", strip_digits(&e.to_string())), format!("loading the .{ext} just saved failed: {e}"))),
     };
     if !representable {
-        let ok = back.get_font(0).map(|f| compare(ext, f, want).is_ok()).unwrap_or(false);
+        let ok = shown(ext, &back, 0).map(|f| compare(ext, f, want).is_ok()).unwrap_or(false);
         return if ok {
             Ok(("+accepted_unrepresentable", true))
         } else {
-            Err(Verdict::fail(format!("{ext}|unrepresentable_font_accepted"), format!("a {}x{} font with {} glyphs was saved as .{ext} (8x16 only) without error and does not come back", want.w, want.h, want.len)))
+            Err(Verdict::fail(format!("{ext}|unrepresentable_font_accepted"), format!("a picture shown in a {}x{} font with {} glyphs (font page {}) was saved as .{ext} (8x16 only) without error and does not come back", want.w, want.h, want.len, env.page)))
         };
     }
-    let range = if ext == "adf" { (bytes.len() >= 193 + 4096).then_some(193..193 + 4096) } else { (bytes.len() >= 12 + 4096 + 48).then(|| bytes.len() - 48 - 4096..bytes.len() - 48) };
+    let body = without_sauce(&bytes);
+    let range = if ext == "adf" { (body.len() >= 193 + 4096).then_some(193..193 + 4096) } else { (body.len() >= 12 + 4096 + 48).then(|| body.len() - 48 - 4096..body.len() - 48) };
     match range {
-        Some(r) if bytes[r.clone()] == want.data[..] => {}
-        _ => return Err(Verdict::fail(format!("{ext}.write|font_bytes"), format!("the 4096 font bytes of the saved .{ext} ({} bytes) differ from the glyph bytes", bytes.len()))),
+        Some(r) if body[r.clone()] == want.data[..] => {}
+        _ => return Err(Verdict::fail(format!("{ext}.write|font_bytes"), format!("the 4096 font bytes of the saved .{ext} ({} bytes) differ from the glyph bytes of the font the cells use (page {})", bytes.len(), env.page))),
     }
-    let Some(f) = back.get_font(0) else {
-        return Err(Verdict::fail(format!("{ext}|missing"), "loaded document has no font in slot 0"));
-    };
-    compare(ext, f, want)?;
+    compare(ext, shown(ext, &back, 0)?, want)?;
     Ok(("", true))
 }
 
+fn enc_adf_idf(ext: &'static str, font: &BitFont, want: &Ref, env: &Env) -> EncResult {
+    let r = adf_idf_inner(ext, font, want, env);
+    if let Err(Verdict::Fail { msg, .. }) = &r {
+        // one root cause shows as refusal, as a short file or as a font that does not come back: the writer takes the
+        // font SIZE from slot 0 and the glyphs from the font page of the cells. Told apart by giving slot 0 a font of the same size.
+        if env.page != 0 && env.slot0 % 3 != 2 {
+            let same_size = Env { slot0: 2, ..*env };
+            if adf_idf_inner(ext, font, want, &same_size).is_ok() {
+                return Err(Verdict::fail(
+                    format!("{ext}|font_size_taken_from_slot0"),
+                    format!("[cells on font page {}, slot 0 holds {}; passes when slot 0 holds a font of the same size] {msg}", env.page, if env.slot0 % 3 == 0 { "the default 8x16 font" } else { "an 8x8 font" }),
+                ));
+            }
+        }
+    }
+    r
+}
+
 fn enc_icy(font: &BitFont, want: &Ref, extra: Option<(usize, &BitFont, &Ref)>, env: &Env) -> EncResult {
+    let p = env.page;
+    let extra = extra.map(|(slot, f, r)| (if slot == p { slot + 1 } else { slot }, f, r));
     let buf = match extra {
-        None => doc(2, &[(0, font)], &[0], env.stale),
-        Some((slot, f2, _)) => doc(2, &[(0, font), (slot, f2)], &[0, slot], env.stale),
+        None => doc(2, &[(p, font)], &[p], env, want.h),
+        Some((slot, f2, _)) => doc(2, &[(p, font), (slot, f2)], &[p, slot], env, want.h),
     };
-    let bytes = match buf.to_bytes("icy", &opts(true)) {
+    let saved_fonts = buf.font_count();
+    let bytes = match buf.to_bytes("icy", &opts(env)) {
         Ok(b) => b,
         Err(e) => return Err(Verdict::fail(format!("icy|save_error|{}", strip_digits(&e.to_string())), format!("saving as IcyDraw failed: {e}"))),
     };
@@ -511,20 +563,36 @@ fn enc_icy(font: &BitFont, want: &Ref, extra: Option<(usize, &BitFont, &Ref)>, e
         Ok(b) => b,
         Err(e) => return Err(Verdict::fail(format!("icy|load_error|{}", strip_digits(&e.to_string())), format!("loading the IcyDraw file just saved failed: {e}"))),
     };
-    let Some(f) = back.get_font(0) else {
-        return Err(Verdict::fail("icy|missing", "loaded IcyDraw file has no font in slot 0"));
-    };
-    compare("icy", f, want)?;
-    if let Some((slot, _, w2)) = extra {
-        let Some(f2) = back.get_font(slot) else {
-            return Err(Verdict::fail("icy.extra|missing", format!("loaded IcyDraw file has no font in slot {slot}")));
-        };
-        compare("icy.extra", f2, w2)?;
+    compare("icy", shown("icy", &back, 0)?, want)?;
+    if let Some((_, _, w2)) = extra {
+        compare("icy.extra", shown("icy.extra", &back, 1)?, w2)?;
     }
-    if back.font_count() != 1 + extra.is_some() as usize {
-        return Err(Verdict::fail("icy|font_count", format!("{} fonts saved, {} loaded", 1 + extra.is_some() as usize, back.font_count())));
+    if back.font_count() != saved_fonts {
+        return Err(Verdict::fail("icy|font_count", format!("{saved_fonts} fonts saved, {} loaded", back.font_count())));
     }
     Ok((if extra.is_some() { "+extra_slot" } else { "" }, true))
+}
+
+/// ANSI file: the writer carries the fonts of the pages >= 100 as CTerm font sequences in front of the text.
+fn enc_ans(font: &BitFont, want: &Ref, env: &Env) -> EncResult {
+    if !want.is_8x256() {
+        return Ok(("+not_representable", false));
+    }
+    if want.psf_magic() {
+        return Ok(("+psf_magic_excluded", false));
+    }
+    let p = 100 + env.page;
+    let buf = doc(2, &[(p, font)], &[p], env, want.h);
+    let bytes = match buf.to_bytes("ans", &opts(env)) {
+        Ok(b) => b,
+        Err(e) => return Err(Verdict::fail(format!("ans|save_error|{}", strip_digits(&e.to_string())), format!("saving a document shown in the font of page {p} as ANSI failed: {e}"))),
+    };
+    let back = match Buffer::from_bytes(Path::new("x.ans"), false, &bytes) {
+        Ok(b) => b,
+        Err(e) => return Err(Verdict::fail(format!("ans|load_error|{}", strip_digits(&e.to_string())), format!("loading the ANSI file just saved failed: {e}"))),
+    };
+    compare("ans", shown("ans", &back, 0)?, want)?;
+    Ok(("", true))
 }
 
 struct Second<'a> {
@@ -545,6 +613,7 @@ fn run_enc(enc: &str, font: &BitFont, want: &Ref, second: Option<Second>, env: &
         },
         "adf" => enc_adf_idf("adf", font, want, env),
         "idf" => enc_adf_idf("idf", font, want, env),
+        "ans" => enc_ans(font, want, env),
         _ => enc_icy(font, want, second.map(|s| (s.slot, s.font, s.want)), env),
     }
 }
@@ -629,16 +698,54 @@ fn builtin_route(route: &str, label: &str, glyphs: &[u8], new_glyph: &dyn Fn(usi
     Ok((font, want))
 }
 
-/// A failure on a route other than create_8 is re-tried with a create_8 font of the same glyph data: when that
-/// fails with the same key the defect does not depend on the route (plain key), otherwise the route is part of the key.
-fn attribute_route(v: Verdict, route: &str, rerun: &dyn Fn() -> EncResult) -> Verdict {
+/// A failure is attributed before it is keyed. (1) When the font carries a special NAME and the same object under a
+/// neutral name passes, the name is the input class (`|name=<class>`). (2) Otherwise, on a route other than create_8,
+/// a fresh create_8 font of the same glyphs (neutral name) is tried: when it passes, the route is the input class
+/// (`|route=<r>`). (3) Otherwise the defect depends on neither and the plain key is reported.
+fn attribute(v: Verdict, font: &BitFont, want: &Ref, route: &str, name_class: Option<&str>, rerun: &dyn Fn(&BitFont) -> EncResult) -> Verdict {
     let Verdict::Fail { key, msg } = &v else { return v };
-    if route == "create_8" {
-        return v;
+    let same = |r: EncResult| matches!(r, Err(Verdict::Fail { key: k2, .. }) if k2 == *key);
+    if let Some(class) = name_class {
+        let mut neutral = font.clone();
+        neutral.name = "icyv font".to_string();
+        if !same(rerun(&neutral)) {
+            return Verdict::fail(format!("{key}|name={class}"), format!("[font named {:?}; the same font object under a neutral name passes] {msg}", font.name));
+        }
     }
-    match rerun() {
-        Err(Verdict::Fail { key: k2, .. }) if k2 == *key => v,
-        _ => Verdict::fail(format!("{key}|route={route}"), format!("[font made by route '{route}'; the same glyphs in a fresh create_8 font pass] {msg}")),
+    if route != "create_8" && !same(rerun(&build(want, false))) {
+        // (edited and edited_renamed differ by the name only, which step 1 has dealt with)
+        let class = if route == "edited_renamed" { "edited" } else { route };
+        return Verdict::fail(format!("{key}|route={class}"), format!("[font made by route '{route}'; the same glyphs in a fresh create_8 font pass] {msg}"));
+    }
+    v
+}
+
+/// FONT NAMES are a dimension of their own: own glyphs under the name of a SAUCE font, of a built-in page, of the
+/// default font, under "custom font N" (the name the DCS loader gives) or without a name.
+fn special_name(kind: u8, idx: u16, slot: u16, page: u16) -> Option<String> {
+    match kind {
+        1 => Some(SAUCE_FONT_NAMES[pick(idx, SAUCE_FONT_NAMES.len())].to_string()),
+        2 => Some(FONT_NAMES[pick(idx, FONT_NAMES.len())].to_string()),
+        3 => Some(FONT_NAMES[0].to_string()),
+        4 => Some(format!("custom font {}", if idx % 2 == 0 { slot } else { page })),
+        5 => Some(String::new()),
+        _ => None,
+    }
+}
+
+fn name_class(name: &str) -> &'static str {
+    if name == FONT_NAMES[0] {
+        "default_font_name"
+    } else if SAUCE_FONT_NAMES.contains(&name) {
+        "sauce_font_name"
+    } else if FONT_NAMES.contains(&name) {
+        "builtin_page_name"
+    } else if name.starts_with("custom font ") {
+        "custom_font_n"
+    } else if name.is_empty() {
+        "empty"
+    } else {
+        "other"
     }
 }
 
@@ -659,8 +766,18 @@ pub struct BmCase {
     pub font2: Option<FontM>,
     /// font slot for the DCS sequence / the extra IcyDraw font
     pub slot: u16,
-    /// bit 0: SaveOptions::compress; bit 1 (document encodings): the font slots already hold another font
+    /// bit 0: SaveOptions::compress; bit 1 (document encodings): the font slots already hold another font;
+    /// bit 2 (document encodings): SaveOptions::save_sauce
     pub flags: u8,
+    /// the name the font object carries when it is encoded (None = what the construction route gave it)
+    #[serde(default)]
+    pub name: Option<String>,
+    /// document encodings: font page of the cells = slot of the font under test (ANSI files: 100 + page)
+    #[serde(default)]
+    pub page: u16,
+    /// document encodings, page != 0: slot 0 holds 0 = the default font, 1 = an 8x8 font, 2 = a font of the same size
+    #[serde(default)]
+    pub slot0: u8,
     /// DCS: what the terminal went through before the font under test is sent (see `Pre`)
     #[serde(default)]
     pub pre: Vec<Pre>,
@@ -735,8 +852,25 @@ pub fn cases() -> BoxedStrategy<BmCase> {
             } else {
                 Just(Vec::new()).boxed()
             };
-            (fonts(h, big), second, slot, 0u8..4, route, src, vec(any::<u8>(), 1..=8), pre)
-                .prop_map(move |(font, font2, slot, flags, route, src, edits, pre)| BmCase { enc, route, src, edits, font, font2, slot, flags, pre })
+            let is_doc = matches!(name, "xb" | "xb2" | "adf" | "idf" | "icy" | "ans");
+            let flags = if is_doc { (0u8..8).boxed() } else { Just(0u8).boxed() };
+            let page = if is_doc { prop_oneof![6 => Just(0u16), 1 => Just(1u16), 1 => Just(2u16), 1 => Just(7u16), 1 => Just(42u16), 1 => Just(255u16), 1 => 1u16..=300].boxed() } else { Just(0u16).boxed() };
+            let names = (prop_oneof![8 => Just(0u8), 4 => Just(1u8), 3 => Just(2u8), 1 => Just(3u8), 2 => Just(4u8), 1 => Just(5u8)], any::<u16>());
+            ((fonts(h, big), second, slot, flags), (route, src, vec(any::<u8>(), 1..=8), pre), (names, page, 0u8..3))
+                .prop_map(move |((font, font2, slot, flags), (route, src, edits, pre), ((nk, ni), page, slot0))| BmCase {
+                    enc,
+                    route,
+                    src,
+                    edits,
+                    font,
+                    font2,
+                    slot,
+                    flags,
+                    name: special_name(nk, ni, slot, page),
+                    page,
+                    slot0,
+                    pre,
+                })
                 .boxed()
         })
         .collect();
@@ -786,10 +920,13 @@ fn make(c: &BmCase, enc: &str, route: &str) -> Result<(BitFont, Ref), Verdict> {
 pub fn check(c: &BmCase) -> Verdict {
     let enc = ENCS[c.enc as usize % ENCS.len()];
     let route = ROUTES[c.route as usize % ROUTES.len()];
-    let (font, want) = match make(c, enc, route) {
+    let (mut font, want) = match make(c, enc, route) {
         Ok(x) => x,
         Err(v) => return v,
     };
+    if let Some(n) = &c.name {
+        font.name = n.clone();
+    }
     let second_ref = match (enc, &c.font2) {
         ("xb2", Some(m)) if want.h <= 32 => Some(ref_of(m, enc, Some(want.h as u8))),
         ("icy", Some(m)) => Some(ref_of(m, enc, None)),
@@ -800,15 +937,19 @@ pub fn check(c: &BmCase) -> Verdict {
         (Some(f), Some(r)) => Some(Second { font: f, want: r, slot: c.slot.max(1) as usize }),
         _ => None,
     };
-    let env = Env { slot: c.slot as usize, compress: c.flags & 1 != 0, stale: c.flags & 2 != 0, pre: &c.pre };
+    let env = Env { slot: c.slot as usize, compress: c.flags & 1 != 0, stale: c.flags & 2 != 0, save_sauce: c.flags & 4 != 0, page: c.page as usize, slot0: c.slot0, pre: &c.pre };
+    let is_doc = matches!(enc, "xb" | "xb2" | "adf" | "idf" | "icy" | "ans");
     match run_enc(enc, &font, &want, second(), &env) {
         Ok((suffix, performed)) => {
             let big = if want.len == 512 { "+512" } else { "" };
             let target = if !performed || enc != "dcs" { suffix } else if suffix == "+reload" { "+reload" } else { "" };
-            let stale = if env.stale && performed && matches!(enc, "xb" | "xb2" | "adf" | "idf" | "icy") { "+stale_doc" } else { "" };
-            Verdict::pass(performed && want.varied(), format!("{enc}{big}|{route}{target}{stale}"))
+            // (document dimensions are folded into two markers to keep the histogram readable)
+            let used = if is_doc && performed && (env.stale || env.page != 0) { "+used_slots" } else { "" };
+            let sauce = if is_doc && performed && env.save_sauce { "+sauce" } else { "" };
+            let named = if c.name.is_some() { "+named" } else { "" };
+            Verdict::pass(performed && want.varied(), format!("{enc}{big}|{route}{target}{used}{sauce}{named}"))
         }
-        Err(v) => attribute_route(v, route, &|| run_enc(enc, &build(&want, false), &want, second(), &env)),
+        Err(v) => attribute(v, &font, &want, route, Some(name_class(&font.name)).filter(|c| *c != "other"), &|f| run_enc(enc, f, &want, second(), &env)),
     }
 }
 
@@ -848,6 +989,21 @@ pub fn minimize(c: &BmCase) -> Vec<BmCase> {
                 pre[i] = Pre::Load { same_slot: *same_slot, other: *other, kind: *kind, font: plain };
                 out.push(BmCase { pre, ..c.clone() });
             }
+        }
+    }
+    if c.name.is_some() {
+        out.push(BmCase { name: None, ..c.clone() });
+    }
+    if c.page != 0 {
+        out.push(BmCase { page: 0, ..c.clone() });
+        out.push(BmCase { page: 1, ..c.clone() });
+    }
+    if c.slot0 != 0 {
+        out.push(BmCase { slot0: 0, ..c.clone() });
+    }
+    for bit in [1u8, 2, 4] {
+        if c.flags & bit != 0 && c.flags != bit {
+            out.push(BmCase { flags: c.flags & !bit, ..c.clone() });
         }
     }
     if c.route != 0 {
@@ -929,12 +1085,14 @@ pub fn check_builtin(c: &BuiltinCase) -> Verdict {
         _ => None,
     };
     let slot = if c.source.len() % 2 == 0 { 0 } else { 7 };
-    // the edited routes meet a used target (slot loaded before / document slots occupied), the others a fresh one
+    // the edited routes meet a used target: "edited" (name of the built-in kept: own glyphs under a SAUCE / page name) a slot
+    // loaded before, occupied document slots and a SAUCE record; "edited_renamed" sits on font page 7 with the default
+    // font in slot 0; the others a fresh target
     let used = matches!(route, "edited" | "edited_renamed");
     let pre = if used { vec![Pre::Load { same_slot: true, other: 0, kind: 1, font: FontM { h: 16, big: false, fill: Fill::Index, patch: Vec::new(), head: Bytes(Vec::new()) } }] } else { Vec::new() };
-    let env = Env { slot, compress: true, stale: used, pre: &pre };
+    let env = Env { slot, compress: true, stale: used, save_sauce: route == "edited", page: if route == "edited_renamed" { 7 } else { 0 }, slot0: 0, pre: &pre };
     match run_enc(enc, &font, &want, second(), &env) {
         Ok((suffix, performed)) => Verdict::pass(performed, format!("{enc}|{route}|{}x{}x{}{}", want.w, want.h, want.len, if performed { "" } else { suffix })),
-        Err(v) => attribute_route(v, route, &|| run_enc(enc, &build(&want, false), &want, second(), &env)),
+        Err(v) => attribute(v, &font, &want, route, Some(name_class(&font.name)).filter(|c| *c != "other"), &|f| run_enc(enc, f, &want, second(), &env)),
     }
 }
